@@ -199,9 +199,18 @@ class TriInterp:
     # -- calling ------------------------------------------------------------------
     def call_function(self, owner, fn, path, args):
         """Interpret fn on path; returns list of Outcome (return/raise)."""
+        # the same function entered again with the same receiver state,
+        # byte subset and arguments: the program itself recurses without
+        # progress there (RecursionError at run time)
+        key = (id(fn), path.bytes if path.bytes is None else frozenset(
+            path.bytes), tuple(repr(a) for a in args))
+        stack = self.__dict__.setdefault("_callstack", [])
+        if key in stack:
+            return [Outcome("raise", "RecursionError", path.bytes)]
         self.depth += 1
         if self.depth > 12:
             raise AnalysisError("tri: recursion too deep in %s" % fn.name)
+        stack.append(key)
         try:
             env = {}
             params = [a.arg for a in fn.args.args]
@@ -224,6 +233,7 @@ class TriInterp:
             return outs
         finally:
             self.depth -= 1
+            stack.pop()
 
     def self_attr(self, name, path, owner, outs, after=None):
         """Evaluate self.<name>; returns list of (path, value); raises are
